@@ -30,7 +30,9 @@ PROPS = {
         "level_text": "Theorems for every byte stream, every partition into calls and every Params with minC<maxC: the code-shaped model of "
                       "Chunker::next/next_block/finish equals the reference byte automaton (partition independence), chunks concatenate to the "
                       "input, bounds, content-definedness, no usize underflow. Tied to the Rust Chunker by a differential run (boundaries and the "
-                      "per-call (chunk?, consumed) trace) over generated and engineered streams; the gear table and constants are re-extracted from source.",
+                      "per-call (chunk?, consumed) trace) over generated and engineered streams; the gear table and constants are re-extracted from source. "
+                      "The glue that decides which call partition the chunker sees (SingleFileCleaner::add_data's re-partitioning of large calls, "
+                      "data_client::clean_file's read loop) is covered by the session suite: the chunks the cleaner cut = the one-shot chunking of the bytes.",
         "design_ref": "DESIGN.md section 4, C04",
         "technique": "Lean 4 proof (induction over the byte list; refinement code-shaped next -> byte automaton) + differential correspondence",
         "rule": "cases = (target 2^7..2^16 [2^20 thorough], stream kind random/constant/periodic/low-entropy/never-match/engineered-match, "
@@ -74,14 +76,15 @@ PROPS = {
                       "with equal xorb/file/range hash yield an explicit collision of a hash primitive, a leaf hash in the range of the interior "
                       "hash, or the single-leaf length case - no injectivity of any hash is assumed), the memo database is irrelevant exactly "
                       "under MemoConsistent, hex text form round-trips and is injective, the streaming HashedWrite "
-                      "digest equals the one-shot hash for every pattern of short inner writes. 'Equals an independent implementation of the "
+                      "digest equals the one-shot hash for every pattern of short inner writes and of transient inner-writer errors with the caller "
+                      "presenting the rest again (the bytes that reached the inner writer are then a prefix of the caller's data). 'Equals an independent implementation of the "
                       "published construction' is decided by the correspondence: an independent Lean BLAKE3 recomputes every data/internal/"
                       "xorb/file/range/hmac hash the Rust code produces.",
         "design_ref": "DESIGN.md section 4, C06",
         "technique": "Lean 4 proof over abstract hash primitives + differential correspondence with an independent Lean BLAKE3",
         "rule": "cases = byte strings at every BLAKE3 block/chunk/tree boundary + random lengths; chunk lists of 0..5000 entries with controlled "
                 "hash[3]%4 patterns, repeated hashes (same/different length), zero hash, extreme lengths; salts; hmac keys; hex texts (valid, "
-                "upper-case, short, long, non-hex); HashedWrite with short inner writes. distinct by content hash; non-trivial = more than "
+                "upper-case, short, long, non-hex); HashedWrite with short inner writes and with transient errors after partial progress. distinct by content hash; non-trivial = more than "
                 "one BLAKE3 chunk / at least 3 list entries",
         "assumptions": ["BLAKE3 itself is compared against an independent implementation, not proved",
                         "collision resistance is never assumed; sensitivity is monitored on the implementation by single edits"],
